@@ -15,7 +15,7 @@ THEOREMS = ['C16_clip_zero_or_same', 'C16_radial_clip_spec', 'C16_absorb_factor'
             'C16_trace_surface_is_regenerated_plumbing', 'C16_trace_is_regenerated_plumbing', 'C16_frame_change_is_regenerated_plumbing', 'C16_repo_lists_def']
 COQ_TARGETS = ['Model/Trace.vo']
 TRUSTED_BASE = BASE_TRUSTED + [
-    'hand model coq/Model/Trace.v (order of propagate/absorb, clip, interact, coating inside Surface._trace_real): tied by per-surface correspondence of the recorded intensities',
+    'hand model coq/Model/Trace.v (order of propagate/absorb, clip, interact, coating inside Surface._trace_real): proved equal to the execution of the plumbing lists regenerated from the source (tools/py2coq_plumb.py, Gen/Plumbing.v, Lemmas/L_Plumb.v) and tied by per-surface correspondence of the recorded intensities', 'tools/py2coq_plumb.py: statement-pattern table (each statement of _trace_real / _interact / localize / globalize / coating interact / group trace must match one known form exactly; anything else is a translation failure) and the meaning given to each step in coq/Model/Plumb.v',
     'the polarized path (PolarizedRays.update_intensity) is outside the model: oracle only',
 ]
 RULE = ('seeded lenses with radial apertures (with/without obscuration), absorbing ideal media (k>0) and catalogue glasses, simple coatings, mirrors; '
@@ -125,6 +125,14 @@ def _lens_cases(ctx, nl, rays_per):
                 last['material'] = ['ideal', rng.uniform(1.3, 1.6), 10 ** rng.uniform(-7.0, -5.5)]
                 spec['image_object'] = True
                 hist['image_surface_objects'] = hist.get('image_surface_objects', 0) + 1
+        if li % 7 == 5:
+            # absorbing medium whose refractive index is EXACTLY 1 (gas cell, absorbing object/image space): attenuation
+            # depends on k and the path alone, not on n (own random stream: the main stream stays as it was)
+            r2 = random.Random(ctx.seed * 19 + 7 + li)
+            cand = [s for s in spec['surfaces'][:-1] if s.get('material') != 'mirror']
+            for s in cand[:2]:
+                s['material'] = ['ideal', 1.0, 10 ** r2.uniform(-7.0, -5.5)]
+                hist['absorbing_index_exactly_one'] = hist.get('absorbing_index_exactly_one', 0) + 1
         route = {1: 'handbuilt', 3: 'roundtrip', 4: 'reuse'}.get(li % 6, 'direct')
         try:
             o = lensgen.build_via(spec, route, rng)
@@ -220,6 +228,28 @@ def _records_oracle(ctx, n):
                 if got.shape != ref.shape or not np.allclose(got, ref, rtol=0, atol=1e-15):
                     bad.append({'kind': 'analysis-intensity', 'detail': f'SpotDiagram field {fi}: reports total intensity {float(np.sum(got))!r}, '
                                 f'the traced rays carry {float(ref.sum())!r}'})
+            # every other analysis that REPORTS intensities: RayFan (x fan and y fan separately) and EncircledEnergy;
+            # the reference is an independent trace of exactly the rays the analysis documents
+            from optiland.analysis import RayFan, EncircledEnergy
+            npts = 9
+            rf = RayFan(o, fields='all', wavelengths=[wv], num_points=npts)
+            for (Hx, Hy) in o.fields.get_field_coords():
+                d = rf.data[f'{(Hx, Hy)}'][f'{wv}']
+                for axis, dist in (('x', 'line_x'), ('y', 'line_y')):
+                    ref = np.array(o.trace(Hx, Hy, wv, npts, dist).i, dtype=float)
+                    got = np.array(d['intensity_' + axis], dtype=float)
+                    nchk += 1
+                    if got.shape != ref.shape or not np.allclose(got, ref, rtol=0, atol=1e-15):
+                        bad.append({'kind': 'analysis-intensity', 'detail': f'RayFan field ({Hx}, {Hy}) intensity_{axis}: reports {got.tolist()!r}, '
+                                    f'the traced {dist} fan carries {ref.tolist()!r}'})
+            ee = EncircledEnergy(o, fields='all', wavelength=wv, num_rays=3, distribution='hexapolar', num_points=8)
+            for fi, (Hx, Hy) in enumerate(o.fields.get_field_coords()):
+                ref = np.array(o.trace(Hx, Hy, wv, 3, 'hexapolar').i, dtype=float)
+                got = np.array(ee.data[fi][0][2], dtype=float)
+                nchk += 1
+                if got.shape != ref.shape or not np.allclose(got, ref, rtol=0, atol=1e-15):
+                    bad.append({'kind': 'analysis-intensity', 'detail': f'EncircledEnergy field {fi}: reports total intensity {float(np.sum(got))!r}, '
+                                f'the traced rays carry {float(ref.sum())!r}'})
         except Exception as e:   # noqa
             bad = [{'kind': 'records-oracle-exception', 'detail': repr(e)[:200]}]
         if bad:
@@ -285,7 +315,7 @@ def system_checks(ctx):
     res['disagreements'] += hist.pop('record_shape_violations', [])[:3]
     yield res
     rec, nrec = _records_oracle(ctx, ctx.n(12, 150))
-    yield {'name': 'records-and-analyses-are-those-of-the-traced-rays (bundles, fully blocked bundles, SpotDiagram)', 'n': nrec,
+    yield {'name': 'records-and-analyses-are-those-of-the-traced-rays (bundles, fully blocked bundles, SpotDiagram, RayFan x/y, EncircledEnergy)', 'n': nrec,
            'nontrivial': nrec, 'samples': [], 'disagreements': rec[:3]}
     pol = _polarized_oracle(ctx, ctx.n(6, 60))
     yield {'name': 'polarized-path-oracle', 'n': ctx.n(6, 60), 'nontrivial': ctx.n(6, 60), 'samples': [],
